@@ -82,31 +82,43 @@ def geometry(case):
                         for x in range(ow):
                             yy, xx = y * s - p + a * dil, x * s - p + b * dil
                             unf.append((ch * H + yy) * W + xx if 0 <= yy < H and 0 <= xx < W else None)
+        if ker_delayed:   # connection.synspike: B x K x L x F
+            syn = [[((ck * L + l) * Fi + f, f * L + l) for l in range(L)] for f in range(Fi) for ck in range(K)]
+            src = [(ck * L + l, f * K + ck) for ck in range(K) for l in range(L) for f in range(Fi)]
+            return dict(nin=C * H * W, nout=Fi * L, nsyn=K * L, npre=K * L * Fi, npost=Fi * L, syn=syn, src=src, unf=unf,
+                        nparam=Fi * K)
         syn = [[((ck * L + l), f * L + l) for l in range(L)] for f in range(Fi) for ck in range(K)]
-        return dict(nin=C * H * W, nout=Fi * L, npre=K * L, npost=Fi * L, syn=syn, src=None, unf=unf, nparam=Fi * K)
+        return dict(nin=C * H * W, nout=Fi * L, nsyn=K * L, npre=K * L, npost=Fi * L, syn=syn, src=None, unf=unf,
+                    nparam=Fi * K)
     raise ValueError(cls)
 
 
 def pre_observations(case, g):
-    """what the presynaptic monitor observes at every step, flat over (batch, unit); computed from the raw inputs"""
+    """what the presynaptic monitor observes at every step, flat over (batch, unit); computed from the raw inputs:
+    the synapse's input is the (for Conv2D: unfolded, zero padded) spike tensor; KernelSTDP on a delayed connection
+    observes connection.synspike, i.e. per parameter element the synapse input d/dt steps earlier"""
     B = case["B"]
     dt = case["conn"]["dt"]
-    obs = []
-    for k, st in enumerate(case["steps"]):
+    nsyn = g.get("nsyn", g["nin"])
+    syn_in = []
+    for st in case["steps"]:
         raw = st["pre"]
         if g.get("unf") is not None:
             o = []
             for b in range(B):
                 o += [0 if u is None else raw[b * g["nin"] + u] for u in g["unf"]]
-        elif g.get("src") is not None:
-            o = []
-            for b in range(B):
-                for (i, e) in g["src"]:
-                    d = st["delay_seen"][e]
-                    back = int(round(d / dt))
-                    o.append(case["steps"][k - back]["pre"][b * g["nin"] + i] if k - back >= 0 else 0)
         else:
             o = list(raw)
+        syn_in.append(o)
+    if g.get("src") is None:
+        return syn_in
+    obs = []
+    for k, st in enumerate(case["steps"]):
+        o = []
+        for b in range(B):
+            for (u, e) in g["src"]:
+                back = int(round(st["delay_seen"][e] / dt))
+                o.append(syn_in[k - back][b * nsyn + u] if k - back >= 0 else 0)
         obs.append(o)
     return obs
 
